@@ -7,6 +7,7 @@ from typing import Dict, List
 from dst.engines.e1_diff import E1Core, E1Persist, E1Layout, E2Actuators, E2Clamp, E7Heap
 from dst.engines.e2_shapes import E2Shapes
 from dst.engines.e3_phases import E3Phases
+from dst.engines.e4_inputs import E4Inputs
 from dst.engines.e5_buzzer import E5Buzzer
 from dst.engines.e6_lcd import E6Text
 from dst.engines.e8_host import E8Actuators, E8Helpers
@@ -21,6 +22,7 @@ _E3 = E3Phases()
 _E2_SHAPES = E2Shapes()
 _E6_TEXT = E6Text()
 _E5 = E5Buzzer()
+_E4 = E4Inputs()
 _E1_PERSIST = E1Persist()
 _E7 = E7Heap()
 _E1_LAYOUT = E1Layout()
@@ -48,6 +50,7 @@ PLANS: Dict[str, List[dict]] = {
     "C11": [{"engine": _E9_HOSTILE, "quick": 400, "thorough": 6000, "quick_wall_s": 120, "thorough_wall_s": 1200}],
     "C12": [{"engine": _E9_TARGET, "quick": 960, "thorough": 20000, "quick_wall_s": 120, "thorough_wall_s": 900}],
     "C13": [{"engine": _E9_PROJECT, "quick": 4000, "thorough": 60000, "quick_wall_s": 90, "thorough_wall_s": 600}],
+    "C15": [{"engine": _E4, "quick": 2000, "thorough": 30000, "quick_wall_s": 120, "thorough_wall_s": 1500}],
     "C16": [{"engine": _E5, "quick": 2000, "thorough": 30000, "quick_wall_s": 120, "thorough_wall_s": 1500}],
     "C17": [{"engine": _E6_TEXT, "quick": 2000, "thorough": 30000, "quick_wall_s": 120, "thorough_wall_s": 1500}],
     "C19": [{"engine": _E8_ACT, "quick": 60000, "thorough": 2000000, "quick_wall_s": 90, "thorough_wall_s": 900}],
